@@ -11,6 +11,10 @@ import (
 
 const lossEps = 1e-12
 
+// actTie is the library's absolute equality tolerance (Eq): inputs this close to 0 count as
+// "at 0" for Relu / LeakyRelu gradients.
+const actTie = 1e-240
+
 // clipD clips a dual to [lo, hi]; a clipped value is a constant (zero tangent). The distance
 // of v to the nearer bound is recorded as a kink gap.
 func clipD(c *ref.Ctx, d ref.D, lo, hi float64, gap *float64) ref.D {
@@ -74,14 +78,16 @@ func refAct(c *ref.Ctx, kind string, x ref.T, m float64, dim int, zeroDeriv floa
 		}
 		return c.Map(x, func(d ref.D) ref.D {
 			switch {
-			case d.V > 0:
+			case d.V > actTie:
 				return d
-			case d.V < 0:
+			case d.V < -actTie:
 				return c.Scale(d, neg)
 			}
-			// value 0 (sign of zero follows m*0); derivative as requested
+			// at 0 - and within the library's absolute equality tolerance of it, where the
+			// library's own notion of "equal to 0" applies - any derivative between the
+			// one-sided ones is acceptable; the caller evaluates both ends
 			r := c.Scale(d, zeroDeriv)
-			r.V = 0
+			r.V = math.Max(0, d.V) + neg*math.Min(0, d.V)
 			return r
 		})
 	case "sigmoid":
